@@ -94,6 +94,7 @@ package fsnotify
 //@   local changes []unix.Kevent_t
 //@   requires nolocks()
 //@   ensures nolocks() && open == old(open)
+//@   ensures (err != nil) <==> (lastKevent == -1)                                                                              [C17 C18] "a registration the kernel did not accept is reported, whatever the reason (an interrupted kevent(2) has applied nothing): the caller releases the descriptor instead of recording a watch that will never fire and can never be deleted"
 //@   loop 1 "for i, fd := range fds"
 //@     invariant nolocks() && len(changes) == len(fds) && 0 <= loopIdx && loopIdx <= len(fds)
 
@@ -217,6 +218,7 @@ package fsnotify
 //@   atcall shared.sendEvent: ok && path.linkName == "" && mask & (unix.NOTE_DELETE | unix.NOTE_RENAME) != 0 ==> lastRemoved == path.name     [C17] "whatever else the kernel reports in the same notification, a deletion or renaming of the watched path ends its watch"
 //@   atcall kqueue.dirChange: event.Op & Remove != 0 ==> hist(w.Events) == snoc(atIter(hist(w.Events)), event)                [C18] "a watched directory that is deleted has its Remove reported; it is listed again only after that (never instead of it)"
 //@   atcall kqueue.dirChange: arg_dir == event.Name || arg_dir == filepath.Clean(event.Name)                                 [C18] "a changed directory is listed again under the name its events are reported with (the spelling it was added under), the name its seen marks are kept under"
+//@   atcall watches.addUserWatch: false                                                                                       [C17] "only Add records a path as added by the user: the reader never does (a path recorded that way is skipped when its directory is removed, and its descriptor would stay open)"
 //@   atcall kqueue.remove: !arg_unwatchFiles                                                                                  [C18 C17] "when a watched directory disappears only its own watch is dropped here: the watches of its entries end with their own notifications, so that each entry still reports its Remove"
 //@   atcall kqueue.remove: path.linkName == "" && arg_name == filepath.Clean(arg_name) ==> arg_name == path.name              [C17] "when a path watched under its own name is deleted or renamed, the removal is asked for under that name"
 //@   atcall kqueue.remove: path.linkName != "" && arg_name == filepath.Clean(arg_name) ==> arg_name == path.name              [C17] "when a watched path is deleted or renamed, the removal is asked for under the name the tables are keyed by (so that its descriptor is closed)"
